@@ -23,7 +23,7 @@ ASSUMPTIONS = [
     "completions happen only inside the scheduler's wait calls (controller), so 'finished' and 'observed finished' coincide at every decision",
     "nodes downstream of a deactivated node are left out of the comparison set (the moment of the skip leaves no trace)",
 ]
-BUDGET = {"quick": {"shards": 4, "seconds": 40}, "thorough": {"shards": 16, "seconds": 420}}
+BUDGET = {"quick": {"shards": 8, "seconds": 40}, "thorough": {"shards": 16, "seconds": 420}}
 
 
 def _nt(case: Dict[str, Any], M: Model, stats: List[Dict[str, Any]]) -> bool:
